@@ -238,11 +238,23 @@ fn kind_of(e: &RawParseError) -> &'static str {
     }
 }
 
+/// The reported path, outermost hop first. The statement asks for "the path to the offending field", not
+/// for the end at which the vector starts: the SDK stores the innermost hop first; a vector that starts at
+/// the root message instead is read as it stands.
+fn root_first(e: &ParseError) -> Vec<(&'static str, &'static str)> {
+    let mut v: Vec<(&'static str, &'static str)> = e.context.iter().map(|c| (c.message, c.field)).collect();
+    let starts_at_root = v.first().map_or(false, |c| c.0 == "ommx.v1.Instance") && v.last().map_or(false, |c| c.0 != "ommx.v1.Instance");
+    if !starts_at_root {
+        v.reverse();
+    }
+    v
+}
+
 /// the ommx.v1.Instance field an error is attributed to
 fn top_field(e: &ParseError) -> Option<&'static str> {
-    if let Some(c) = e.context.last() {
-        if c.message == "ommx.v1.Instance" {
-            return Some(c.field);
+    if let Some(c) = root_first(e).first() {
+        if c.0 == "ommx.v1.Instance" {
+            return Some(c.1);
         }
         return None;
     }
@@ -716,7 +728,8 @@ fn judge(m: &v1::Instance, label: &str, mon: &mut Monitor) {
             let top = top_field(&e);
             // the context lists the path from the offending field outwards to the Instance field
             // and must be an initial part of that path (the innermost field may be named by the error itself)
-            let on_path = |x: &Expected| e.context.len() <= x.path.len() && e.context.iter().rev().zip(x.path.iter()).all(|(c, (m, f))| *m == c.message && *f == c.field);
+            let reported = root_first(&e);
+            let on_path = |x: &Expected| reported.len() <= x.path.len() && reported.iter().zip(x.path.iter()).all(|(c, (m, f))| *m == c.0 && *f == c.1);
             // among the violated rules of this kind and field, prefer one whose path explains the whole context
             let hit = tv.must.iter().filter(|x| x.kind == kind && Some(x.top) == top).max_by_key(|x| on_path(x));
             match hit {
